@@ -2,6 +2,8 @@ package props
 
 import (
 	"bytes"
+	"crypto/ed25519"
+	"crypto/sha256"
 	"encoding/hex"
 	"encoding/json"
 	"fmt"
@@ -63,7 +65,7 @@ func captureReinitHashes(w *world.World) map[string][]byte {
 }
 
 func checkC20(c *Ctx) {
-	c.Rule = "original ceremonies for (n,t), n<=4, under random delivery (some with an interleaved second round, signing and junk on the board) are reinitialised on fresh nodes with fresh communication keys and fresh machines from the same mnemonics through the real procedure (GenerateReDKGMessage, optionally stripped to the v0.1.4 shape + GetAdaptedReDKG, ReInitDKG, reinit operation through every machine, result back); plus the recorded v0.1.4 log of the repository with its mnemonics. Half of the v0.1.4-shaped dumps begin with well-formed deal messages of a foreign round sent by non-participants. Oracle: every node signing-idle with the original participants, threshold and public polynomial; every machine's share equals the original; a batch signed afterwards verifies (prysm) under the original group key; the confirmation hash is identical on all nodes and changes under every single-field edit of the reinit file. Half of the reinitialisations restart the restored machines before the reinit operation, a third enter set_seed a second time on them. Two fifths: one operator finishes his reinit and proposes a batch before the others return their reinit results. The reinit message must carry exactly the new key handed in for every participant name. distinct = distinct (scenario, n, t) reinitialisations + distinct edited fields"
+	c.Rule = "original ceremonies for (n,t), n<=4, under random delivery (some with an interleaved second round, signing and junk on the board) are reinitialised on fresh nodes with fresh communication keys and fresh machines from the same mnemonics through the real procedure (GenerateReDKGMessage, optionally stripped to the v0.1.4 shape + GetAdaptedReDKG, ReInitDKG, reinit operation through every machine, result back); plus the recorded v0.1.4 log of the repository with its mnemonics. Dumps in which an abandoned earlier attempt invited one participant under another communication key. Half of the v0.1.4-shaped dumps begin with well-formed deal messages of a foreign round sent by non-participants. Oracle: every node signing-idle with the original participants, threshold and public polynomial; every machine's share equals the original; a batch signed afterwards verifies (prysm) under the original group key; the confirmation hash is identical on all nodes and changes under every single-field edit of the reinit file. Half of the reinitialisations restart the restored machines before the reinit operation, a third enter set_seed a second time on them. Two fifths: one operator finishes his reinit and proposes a batch before the others return their reinit results. The reinit message must carry exactly the new key handed in for every participant name. distinct = distinct (scenario, n, t) reinitialisations + distinct edited fields"
 	c.Assumptions = []string{"the dump contains the target round's complete key generation before the first signing proposal (the arrangement the tooling supports)", "the v0.1.4 log is judged against the group key announced in the log itself"}
 	// machines log their operations (so that a restart + replay after the reinitialisation is possible)
 	world.UseOpLog = true
@@ -81,8 +83,11 @@ func checkC20(c *Ctx) {
 	}
 	var jobs []job
 	for _, nt := range ntCases(c.Pick(3, 4)) {
-		for _, sh := range []string{"plain", "adapted014", "interleaved", "later-proposal", "second-ceremony"} {
+		for _, sh := range []string{"plain", "adapted014", "interleaved", "later-proposal", "second-ceremony", "earlier-attempt-other-key"} {
 			for r := 0; r < c.Pick(3, 20); r++ {
+				if sh == "earlier-attempt-other-key" && r >= c.Pick(1, 6) {
+					continue
+				}
 				jobs = append(jobs, job{nt.N, nt.T, sh, r})
 			}
 		}
@@ -124,6 +129,27 @@ func runC20(c *Ctx, n, t int, shape string, seed uint64) {
 	if shape == "interleaved" {
 		// junk and a foreign round's opening on the board before and during the target round
 		_ = w.Board.Send(storage.Message{DkgRoundID: "junk", Event: "bogus", Data: []byte("junk"), SenderAddr: "nobody", Signature: []byte("x")})
+	}
+	if shape == "earlier-attempt-other-key" {
+		// an abandoned attempt stands in the dump before the real round: the same people, but one of them was
+		// invited with another communication key (he replaced it before the second attempt); the attempt never
+		// got past the confirmations. The reinitialisation must register everybody's NEW key for the real round.
+		var req requests.SignatureProposalParticipantsListRequest
+		if err := json.Unmarshal(w.InitPayload(t, now().Add(-2*time.Minute)), &req); err != nil {
+			c.Inconclusive("earlier attempt: %v", err)
+			return
+		}
+		k := int(seed+1) % n
+		sd := sha256.Sum256([]byte(fmt.Sprintf("replaced-key-%d", seed)))
+		req.Participants[k].PubKey = ed25519.NewKeyFromSeed(sd[:]).Public().(ed25519.PublicKey)
+		bz, _ := json.Marshal(req)
+		if err := w.Nodes[0].Svc.StartDKG(&dto.StartDkgDTO{Payload: bz}); err != nil {
+			c.Inconclusive("earlier attempt: %v", err)
+			return
+		}
+		w.Run(world.RandomPolicy, 40*n)
+		wit["participant_invited_with_another_key_in_an_earlier_attempt"] = w.Nodes[k].Name
+		c.Add("dumps_with_an_earlier_attempt_under_another_key", 1)
 	}
 	if shape == "second-ceremony" {
 		// the ceremony that is reinitialised later is not the first one these machines ran
